@@ -350,6 +350,18 @@ pub fn owed_lst(sn: &Snap, lst: &str) -> T {
     t::sum(&parts)
 }
 
+/// LST the contract holds plus LST escrowed for its in-flight transfers
+pub fn lst_held(chain: &Chain) -> T {
+    let lst = chain.who.lst_denom();
+    let mut held = vec![chain.bal(&chain.who.contract, &lst)];
+    for p in chain.w.packets.iter() {
+        if p.sender == chain.who.contract && p.denom == lst && p.state == PState::Sent {
+            held.push(p.amount.clone());
+        }
+    }
+    t::sum(&held)
+}
+
 /// Structural (concrete) part of the invariant: I4, the concrete half of I5 and I7. Returns violated clauses.
 pub fn inv_structural(sn: &Snap, chain: &Chain, g: &Ghost) -> Vec<String> {
     let mut bad = vec![];
@@ -448,6 +460,8 @@ pub fn inv_terms(sn: &Snap, chain: &Chain, g: &Ghost) -> Vec<(String, T)> {
     // I3
     out.push(("C03:I3a LST supply = total_liquid_stake_token".into(), t::eq(&chain.supply_of(&lst), &sn.l)));
     out.push(("C03:I3b contract LST = pending batch + refundable LST + unsolicited".into(), t::eq(&chain.bal(&who.contract, &lst), &t::add(&owed_lst(sn, &lst), &g.don_l))));
+    // I3c: what the contract holds plus what sits in the IBC escrow for its in-flight LST transfers is part of the supply
+    out.push(("C03:I3c contract LST balance + escrowed LST <= supply".into(), t::le(&lst_held(chain), &chain.supply_of(&lst))));
     // I5
     for (id, b) in &sn.batches {
         let open: Vec<T> = sn.reqs.iter().filter(|((bid, _), _)| bid == id).map(|(_, a)| a.clone()).collect();
